@@ -1,6 +1,7 @@
 (* C20 — builder path: call sequences, numbering, no panic. *)
 From hls Require Import Base Float Lex Kinds Types Tags Line Keys Media Dump Builder.
-From hls.Proofs Require Import Build Parse MediaProps NoPanic C20.
+From hls Require Import Master.
+From hls.Proofs Require Import Build Parse MediaProps NoPanic C20 MediaText C03Items ParsedBuilt Rebuild.
 Open Scope N_scope.
 
 (* field setters in any order: setters of different fields commute, of the same field the
@@ -74,6 +75,34 @@ Check C20_shared_build : forall s, ps_partial s = false ->
                             b_segments := Some (map Some (rev (ps_segs s))); b_excess := b_excess (ps_b s);
                             b_unknown := Some (rev (ps_unknown s)) |}.
 Print Assumptions C20_shared_build.
+
+(* builder path = parser path.  build() is idempotent on its own results: the builder fed with the content of a
+   built playlist — header fields, unknown tags, and the segments WITHOUT numbers and with their keys in raw form
+   (`builder_of`) — builds exactly that playlist; in particular every playlist the parser returns is rebuilt
+   exactly by the builder from its content ... *)
+Theorem C20_rebuild : forall p raws, built_ok p raws -> mp_excess p = 0 -> build (builder_of p raws) = Ok p.
+Proof. exact rebuild_exact. Qed.
+Check C20_rebuild : forall p raws, built_ok p raws -> mp_excess p = 0 -> build (builder_of p raws) = Ok p.
+Print Assumptions C20_rebuild.
+
+Theorem C20_parsed_rebuild : forall s p, parse_media s = Ok p -> exists raws, build (builder_of p raws) = Ok p.
+Proof. exact parsed_rebuild. Qed.
+Check C20_parsed_rebuild : forall s p, parse_media s = Ok p -> exists raws, build (builder_of p raws) = Ok p.
+Print Assumptions C20_parsed_rebuild.
+
+(* ... and the text of the built value parses back to the same observable content (C03 machinery): the two paths
+   agree, for every well-formed built value *)
+Theorem C20_paths_agree : forall p raws, wf_media p = true -> built_ok p raws -> mp_excess p = 0 ->
+  build (builder_of p raws) = Ok p /\ parse_media (print_media p) = Ok (reread p)
+  /\ Forall2 seg_same (mp_segs (reread p)) (mp_segs p).
+Proof.
+  intros p raws Hw Hb He. split; [apply (rebuild_exact p raws Hb He)|]. split; [apply (media_text_roundtrip p raws Hw Hb)|].
+  destruct (reread_same p raws Hb) as [_ [_ [_ [_ [_ [_ [_ [_ [_ Hs]]]]]]]]]. exact Hs.
+Qed.
+Check C20_paths_agree : forall p raws, wf_media p = true -> built_ok p raws -> mp_excess p = 0 ->
+  build (builder_of p raws) = Ok p /\ parse_media (print_media p) = Ok (reread p)
+  /\ Forall2 seg_same (mp_segs (reread p)) (mp_segs p).
+Print Assumptions C20_paths_agree.
 
 Example C20_example :
   match run_ops [BTarget 10000000000; BMseq 0; BSegBegin (Some 1); BSegDur 5000000000; BSegUri [98]; BSegEndList;
